@@ -64,6 +64,7 @@ func runC01(c *Config, r *Report) {
 	c01R38(ic, r)
 	c01R39and40(ic, r)
 	c01R41(ic, r)
+	c01R42(ic, r, "R01.42")
 	c01R3(ic, r)
 	c01R4(ic, r)
 	// R01.5 shared with C02
